@@ -261,7 +261,8 @@ def replay(rep, path):
     for p in r['problems']:
         print('REPLAY: %s: %s' % (p[2], p[3]))
     if r['problems']:
-        rep.violation('replay reproduces: ' + r['problems'][0][3], lines, no_input=r['problems'][0][2] != 'impl-violates-spec')
+        first = next((p for p in r['problems'] if p[2] == 'impl-violates-spec'), r['problems'][0])   # a spec violation later in the scenario outranks the model difference before it
+        rep.violation('replay reproduces: ' + first[3], lines, no_input=first[2] != 'impl-violates-spec')
     else:
         print('REPLAY: no disagreement (%d lines)' % r['lines'])
     return rep.finish(LEVEL)
